@@ -30,7 +30,7 @@ fn main() {
             std::process::exit(c19::probe(&args[2], &args[3], depth, &args[5]));
         }
         "run" => {
-            let tier0 = std::env::var("VERIF_TIER").ok().and_then(|t| Tier::parse(&t)).or_else(|| args.get(3).and_then(|t| Tier::parse(t))).unwrap_or(Tier::Quick);
+            let tier0 = args.get(3).and_then(|t| Tier::parse(t)).or_else(|| std::env::var("VERIF_TIER").ok().and_then(|t| Tier::parse(&t))).unwrap_or(Tier::Quick);
             if args[2] == "C18" {
                 std::process::exit(c18::drive(tier0));
             }
@@ -38,7 +38,7 @@ fn main() {
                 std::process::exit(c19::drive(tier0));
             }
             let p = find(&args[2]);
-            let tier = std::env::var("VERIF_TIER").ok().and_then(|t| Tier::parse(&t)).or_else(|| args.get(3).and_then(|t| Tier::parse(t))).unwrap_or(Tier::Quick);
+            let tier = tier0;
             std::process::exit(core::drive(&p, tier));
         }
         "shard" => {
